@@ -262,8 +262,29 @@ func (f *freeBreaker) burst(clk *atomic.Int64, g, n int) []freeObs {
 		}()
 	}
 	close(startCh)
-	wg.Wait()
+	// a burst takes milliseconds; requests that do not come back are blocked inside the breaker
+	done := make(chan struct{})
+	go func() { wg.Wait(); close(done) }()
+	select {
+	case <-done:
+	case <-time.After(3 * cbHangTimeout):
+		cbBurstHung.Store(true)
+		cbHangTimeout = 2 * time.Second
+		return nil
+	}
 	return out
+}
+
+// cbBurstHung: a burst of concurrent requests at a frozen instant did not come back (reported by the calling part).
+var cbBurstHung atomic.Bool
+
+func cbBurstHang(c *Ctx) bool {
+	if cbBurstHung.Load() {
+		c.Violation("hang", sfmt("a burst of concurrent requests at one frozen instant did not return within %v: requests are blocked inside the breaker (deadlock)", 60*time.Second), nil)
+		cbBurstHung.Store(false)
+		return true
+	}
+	return false
 }
 
 func c05Free(c *Ctx) {
@@ -277,6 +298,9 @@ func c05Free(c *Ctx) {
 		for round := 0; round < rounds; round++ {
 			f.status.Store(502)
 			obs := f.burst(&clk, 8, 100+r.IntN(300))
+			if cbBurstHang(c) {
+				return
+			}
 			c.Count("free_requests", int64(len(obs)))
 			firstFallbackEnd := int64(1 << 62)
 			nf := 0
@@ -357,6 +381,9 @@ func c12FreeRamp(c *Ctx) {
 		f := newFreeBreaker("NetworkErrorRatio() > 0.5", fb, D, 0)
 		var clk atomic.Int64
 		f.burst(&clk, 1, 3) // trips at the first completion
+		if cbBurstHang(c) {
+			return
+		}
 		if f.fell.Load() == 0 {
 			c.Violation("trip/missed", "failing responses never tripped the breaker (C18's concern; run skipped)", nil)
 			return
@@ -393,6 +420,9 @@ func c12FreeRamp(c *Ctx) {
 		}
 		obs := f.burst(&clk, 8, n)
 		c.Eval()
+		if cbBurstHang(c) {
+			return
+		}
 		passed, refused := f.handled.Load()-h0, f.fell.Load()-f0
 		c.Count("freeramp_arrivals", int64(len(obs)))
 		if amb {
@@ -424,6 +454,9 @@ func c18FreeTrip(c *Ctx) {
 		for k := 0; k < cycles; k++ {
 			f.status.Store(502)
 			f.burst(&clk, 8, 50+r.IntN(200)) // overlapping failing completions at one instant
+			if cbBurstHang(c) {
+				return
+			}
 			wantTrips++
 			if s, _, _ := (&cbDriver{cb: f.cb}).observe(); s != "tripped" {
 				c.Violation("trip/missed", sfmt("cycle %d: concurrent failing responses did not leave the breaker tripped (state %s)", k, s), nil)
